@@ -112,3 +112,13 @@ func NewTicker(d time.Duration) *time.Ticker {
 	}
 	return t
 }
+
+// PollPoint (R11) is inserted at the top of every loop that polls with Sleep: one
+// nanosecond of simulated time, i.e. the loop continues at the next quiescent
+// point, after every goroutine that was runnable in this step has run.
+func PollPoint() {
+	if Cur() == nil {
+		return
+	}
+	Sleep(time.Nanosecond)
+}
